@@ -943,3 +943,268 @@ Proof.
   repeat (apply Forall_cons; [auto|]). apply Forall_nil.
 Qed.
 
+
+(* ---------------------------------------------------------------------- *)
+(* the timeout loop of uv__io_poll                                          *)
+Definition pinv (T : Z) (s : pst) : Prop :=
+  0 <= p_now s /\
+  (if p_reset s then p_timeout s = 0 /\ p_user s = T /\ p_real s = T /\ p_now s = 0
+   else 0 <= p_timeout s /\ p_real s = p_timeout s /\ p_timeout s + p_now s <= T).
+Definition call_ok (T : Z) (c : Z * Z) : Prop := fst c + snd c <= T /\ 0 <= fst c.
+
+Lemma elapsed_ok_spec t e : elapsed_ok t e = true -> 0 <= t -> 0 <= e <= t.
+Proof. unfold elapsed_ok. intros H Ht. lia. Qed.
+
+Lemma io_poll_loop_ok_mono o : forall s log, r_ok (io_poll_loop o s log) = true -> p_ok s = true.
+Proof.
+  induction o as [|a r IH]; intros s log.
+  - unfold io_poll_loop, io_poll_tail.
+    destruct (p_timeout s <? 0); cbn; auto. destruct (p_reset s); cbn; auto.
+    destruct (update_timeout _) as [s'|]; cbn; auto. destruct (p_timeout s' <? 0); cbn; auto.
+  - cbn [io_poll_loop]. destruct a.
+    + destruct (update_timeout _) as [s'|] eqn:U; cbn.
+      * intros H. apply IH in H. revert U. unfold update_timeout, after_reset.
+        destruct (p_reset s); cbn;
+          repeat match goal with |- context [if ?c then _ else _] => destruct c end;
+          intros U; inversion U; subst; cbn in H; apply andb_prop in H; tauto.
+      * intros H. apply andb_prop in H; tauto.
+    + destruct (p_timeout s <? 0); cbn; auto. destruct (p_reset s) eqn:R; cbn; auto.
+      destruct (update_timeout _) as [s'|] eqn:U; cbn; auto.
+      intros H. apply IH in H. revert U. unfold update_timeout, after_reset. rewrite R. cbn.
+      repeat match goal with |- context [if ?c then _ else _] => destruct c end;
+        intros U; inversion U; subst; cbn in H; auto.
+    + cbn. intros H. apply andb_prop in H; tauto.
+Qed.
+
+(* one trip through "reset / update_timeout" keeps the invariant *)
+Lemma update_inv T s now ok s' :
+  0 <= T -> pinv T s -> p_now s <= now -> now <= p_now s + p_timeout s ->
+  update_timeout (after_reset s now ok) = Some s' ->
+  pinv T s' /\ p_ok s' = ok /\ call_ok T (p_timeout s', p_now s').
+Proof.
+  intros HT (N & I) L1 L2. unfold update_timeout, after_reset.
+  destruct (p_reset s) eqn:R; cbn.
+  - destruct I as (A & B & C & D).
+    destruct (Z.eqb_spec (p_user s) 0); [discriminate|].
+    destruct (Z.eqb_spec (p_user s) (-1)); [lia|].
+    destruct (Z.leb_spec (p_real s - now) 0); [discriminate|].
+    intros E; inversion E; subst; clear E. unfold pinv, call_ok; cbn. repeat split; lia.
+  - destruct I as (A & B & C).
+    destruct (Z.eqb_spec (p_timeout s) 0); [discriminate|].
+    destruct (Z.eqb_spec (p_timeout s) (-1)); [lia|].
+    destruct (Z.leb_spec (p_real s - now) 0); [discriminate|].
+    intros E; inversion E; subst; clear E. unfold pinv, call_ok; cbn. repeat split; lia.
+Qed.
+
+Ltac fl := repeat (apply Forall_cons; [assumption|]); assumption.
+
+Lemma io_poll_tail_bound T s log :
+  0 <= T -> pinv T s -> Forall (call_ok T) log ->
+  r_blocked (io_poll_tail s log) <= T /\ Forall (call_ok T) (r_calls (io_poll_tail s log)).
+Proof.
+  intros HT Inv FL. pose proof Inv as (N & I). unfold io_poll_tail.
+  assert (C0 : call_ok T (p_timeout s, p_now s)).
+  { unfold call_ok; cbn. destruct (p_reset s); lia. }
+  destruct (Z.ltb_spec (p_timeout s) 0); cbn.
+  - split; [destruct (p_reset s); lia | fl].
+  - destruct (p_reset s) eqn:R; cbn.
+    + destruct (update_timeout _) as [s'|] eqn:U; cbn.
+      * destruct (update_inv T s (p_now s + p_timeout s) (p_ok s) s' HT Inv ltac:(lia) ltac:(lia) U)
+          as ((N' & I') & _ & C').
+        assert (R' : p_reset s' = false).
+        { revert U. unfold update_timeout, after_reset. rewrite R. cbn.
+          repeat match goal with |- context [if ?c then _ else _] => destruct c end;
+            intros U; inversion U; reflexivity. }
+        rewrite R' in I'.
+        destruct (Z.ltb_spec (p_timeout s') 0); cbn; (split; [lia | fl]).
+      * split; [lia | fl].
+    + split; [lia | fl].
+Qed.
+
+Lemma io_poll_loop_bound T o : forall s log,
+  0 <= T -> pinv T s -> Forall (call_ok T) log ->
+  r_ok (io_poll_loop o s log) = true ->
+  r_blocked (io_poll_loop o s log) <= T /\ Forall (call_ok T) (r_calls (io_poll_loop o s log)).
+Proof.
+  induction o as [|a r IH]; intros s log HT Inv FL OK.
+  - apply io_poll_tail_bound; auto.
+  - pose proof Inv as (N & I).
+    assert (C0 : call_ok T (p_timeout s, p_now s)).
+    { unfold call_ok; cbn. destruct (p_reset s); lia. }
+    assert (T0 : 0 <= p_timeout s) by (destruct (p_reset s); lia).
+    assert (B0 : p_timeout s + p_now s <= T) by (destruct (p_reset s); lia).
+    cbn [io_poll_loop] in *. destruct a.
+    + destruct (update_timeout _) as [s'|] eqn:U.
+      * pose proof (io_poll_loop_ok_mono _ _ _ OK) as OK'.
+        assert (EO : elapsed_ok (p_timeout s) e = true).
+        { revert U OK'. unfold update_timeout, after_reset.
+          destruct (p_reset s); cbn;
+            repeat match goal with |- context [if ?c then _ else _] => destruct c end;
+            intros U; inversion U; subst; cbn; intros H; apply andb_prop in H; tauto. }
+        destruct (elapsed_ok_spec _ _ EO T0) as [E1 E2].
+        destruct (update_inv T s (p_now s + e) _ s' HT Inv ltac:(lia) ltac:(lia) U) as (Inv' & _ & C').
+        apply IH; auto.
+      * cbn in *. apply andb_prop in OK. destruct OK as [_ EO].
+        destruct (elapsed_ok_spec _ _ EO T0). split; [lia | fl].
+    + destruct (Z.ltb_spec (p_timeout s) 0); cbn in *; [lia|].
+      destruct (p_reset s) eqn:R; cbn in *.
+      * destruct (update_timeout _) as [s'|] eqn:U; cbn in *.
+        -- destruct (update_inv T s (p_now s + p_timeout s) _ s' HT Inv ltac:(lia) ltac:(lia) U) as (Inv' & _ & C').
+           apply IH; auto.
+        -- split; [lia | fl].
+      * split; [lia | fl].
+    + cbn in *. apply andb_prop in OK. destruct OK as [_ EO].
+      destruct (elapsed_ok_spec _ _ EO T0). split; [lia | fl].
+Qed.
+
+(* C16_io_poll_respects_timeout *)
+Lemma io_poll_respects_timeout metrics T o :
+  0 <= T -> r_ok (io_poll metrics T o) = true ->
+  r_blocked (io_poll metrics T o) <= T /\
+  Forall (fun c => fst c + snd c <= T /\ 0 <= fst c) (r_calls (io_poll metrics T o)).
+Proof.
+  intros HT OK. unfold io_poll in *.
+  apply (io_poll_loop_bound T); auto.
+  destruct metrics; unfold pinv; cbn; repeat split; lia.
+Qed.
+
+(* the calls are logged in order, first the one with the state's own timeout *)
+Lemma io_poll_loop_calls o : forall s log,
+  exists l, r_calls (io_poll_loop o s log) = l ++ (p_timeout s, p_now s) :: log.
+Proof.
+  induction o as [|a r IH]; intros s log.
+  - unfold io_poll_loop, io_poll_tail.
+    destruct (p_timeout s <? 0); [exists []; reflexivity|].
+    destruct (p_reset s); [|exists []; reflexivity].
+    destruct (update_timeout _) as [s'|]; [|exists []; reflexivity].
+    destruct (p_timeout s' <? 0); exists [(p_timeout s', p_now s')]; reflexivity.
+  - cbn [io_poll_loop]. destruct a.
+    + destruct (update_timeout _) as [s'|]; [|exists []; reflexivity].
+      destruct (IH s' ((p_timeout s, p_now s) :: log)) as (l & E). rewrite E.
+      exists (l ++ [(p_timeout s', p_now s')]). rewrite <- app_assoc. reflexivity.
+    + destruct (p_timeout s <? 0); [exists []; reflexivity|].
+      destruct (p_reset s); [|exists []; reflexivity].
+      destruct (update_timeout _) as [s'|]; [|exists []; reflexivity].
+      destruct (IH s' ((p_timeout s, p_now s) :: log)) as (l & E). rewrite E.
+      exists (l ++ [(p_timeout s', p_now s')]). rewrite <- app_assoc. reflexivity.
+    + exists []; reflexivity.
+Qed.
+
+Definition nth_call (k : nat) (r : pres) : option (Z * Z) := nth_error (rev (r_calls r)) k.
+
+(* the first retry after an interruption passes exactly given - elapsed *)
+Lemma io_poll_first_retry_exact T e o :
+  0 <= e < T ->
+  nth_call 0 (io_poll false T (PIntr e :: o)) = Some (T, 0) /\
+  nth_call 1 (io_poll false T (PIntr e :: o)) = Some (T - e, e).
+Proof.
+  intros H. unfold io_poll, nth_call. cbn [io_poll_loop].
+  unfold update_timeout, after_reset. cbn.
+  destruct (Z.eqb_spec T 0); [lia|]. destruct (Z.eqb_spec T (-1)); [lia|].
+  destruct (Z.leb_spec (T - e) 0); [lia|].
+  match goal with |- context [io_poll_loop o ?s ?lg] => destruct (io_poll_loop_calls o s lg) as (l & E) end.
+  rewrite E. cbn. rewrite rev_app_distr. cbn. split; reflexivity.
+Qed.
+
+(* ... but later retries subtract the time since entry again from an already reduced
+   real_timeout (base is never advanced): the function wakes up early *)
+Lemma io_poll_retry_exact_refuted :
+  exists T o,
+    r_ok (io_poll false T o) = true /\
+    nth_call 2 (io_poll false T o) = Some (700, 200) /\ 700 <> T - 200 /\
+    r_end (io_poll false T o) = PeTimeout /\ r_blocked (io_poll false T o) < T.
+Proof. exists 1000, [PIntr 100; PIntr 100]. vm_compute. repeat split; congruence. Qed.
+
+Lemma io_poll_zero_intr_not_transparent :
+  r_blocked (io_poll false 1000 [PIntr 100; PIntr 0]) <> r_blocked (io_poll false 1000 [PIntr 100]).
+Proof. vm_compute. congruence. Qed.
+
+(* what does hold: one interruption is exact ... *)
+Lemma io_poll_single_intr_exact T e :
+  0 <= e < T ->
+  r_blocked (io_poll false T [PIntr e]) = T /\ r_end (io_poll false T [PIntr e]) = PeTimeout /\
+  r_blocked (io_poll false T []) = T /\ r_end (io_poll false T []) = PeTimeout.
+Proof.
+  intros H. unfold io_poll. cbn [io_poll_loop]. unfold io_poll_tail, update_timeout, after_reset. cbn.
+  destruct (Z.eqb_spec T 0); [lia|]. destruct (Z.eqb_spec T (-1)); [lia|].
+  destruct (Z.leb_spec (T - e) 0); [lia|]. cbn.
+  destruct (Z.ltb_spec (T - e) 0); [lia|]. destruct (Z.ltb_spec T 0); [lia|]. cbn.
+  repeat split; lia.
+Qed.
+
+(* ... and any number of interruptions that report no elapsed time, before anything has
+   elapsed, change nothing but the number of calls *)
+Definition pobs (r : pres) := (r_blocked r, r_end r, r_ok r).
+
+Lemma io_poll_log_irrelevant o : forall s log1 log2,
+  pobs (io_poll_loop o s log1) = pobs (io_poll_loop o s log2).
+Proof.
+  induction o as [|a r IH]; intros s log1 log2.
+  - unfold io_poll_loop, io_poll_tail, pobs.
+    destruct (p_timeout s <? 0); [reflexivity|]. destruct (p_reset s); [|reflexivity].
+    destruct (update_timeout _) as [s'|]; [|reflexivity]. destruct (p_timeout s' <? 0); reflexivity.
+  - cbn [io_poll_loop]. destruct a.
+    + destruct (update_timeout _) as [s'|]; [apply IH|reflexivity].
+    + destruct (p_timeout s <? 0); [reflexivity|]. destruct (p_reset s); [|reflexivity].
+      destruct (update_timeout _) as [s'|]; [apply IH|reflexivity].
+    + reflexivity.
+Qed.
+
+Lemma io_poll_zero_storm s o :
+  p_now s = 0 -> p_reset s = false -> p_real s = p_timeout s -> (0 < p_timeout s \/ p_timeout s = -1) ->
+  forall k log log', pobs (io_poll_loop (repeat (PIntr 0) k ++ o) s log) = pobs (io_poll_loop o s log').
+Proof.
+  intros N R E NZ k. induction k as [|k IH]; intros log log'; cbn [repeat app]; [apply io_poll_log_irrelevant|].
+  cbn [io_poll_loop]. unfold after_reset. rewrite R.
+  assert (OKE : (p_ok s && elapsed_ok (p_timeout s) 0)%bool = p_ok s).
+  { unfold elapsed_ok. destruct (p_ok s); cbn; [|reflexivity]. lia. }
+  rewrite OKE. unfold update_timeout. cbn.
+  destruct (Z.eqb_spec (p_timeout s) 0); [lia|].
+  replace (p_now s + 0) with 0 by lia.
+  destruct (Z.eqb_spec (p_timeout s) (-1)).
+  - replace (mkP 0 (p_real s) (p_timeout s) false (p_user s) (p_ok s)) with s
+      by (destruct s; cbn in *; subst; reflexivity). apply IH.
+  - destruct (Z.leb_spec (p_real s - 0) 0); [lia|].
+    replace (mkP 0 (p_real s - 0) (p_real s - 0) false (p_user s) (p_ok s)) with s
+      by (destruct s; cbn in *; subst; f_equal; lia). apply IH.
+Qed.
+
+(* C16_io_poll_eintr_transparent, the part that holds: a storm of k interruptions that report no
+   elapsed time in front of any script *)
+Lemma io_poll_eintr_storm_transparent T k o :
+  (0 < T \/ T = -1) ->
+  pobs (io_poll false T (repeat (PIntr 0) k ++ o)) = pobs (io_poll false T o).
+Proof. intros H. unfold io_poll. apply io_poll_zero_storm; cbn; auto. Qed.
+
+(* the metrics variant: once the non-blocking first call has found nothing (timed out or was
+   interrupted) it continues exactly like the plain variant *)
+Lemma io_poll_user_irrelevant o : forall s u log,
+  p_reset s = false ->
+  io_poll_loop o (mkP (p_now s) (p_real s) (p_timeout s) false u (p_ok s)) log = io_poll_loop o s log.
+Proof.
+  induction o as [|a r IH]; intros s u log R.
+  - unfold io_poll_loop, io_poll_tail. cbn. rewrite R. reflexivity.
+  - cbn [io_poll_loop]. cbn. rewrite R. unfold after_reset, update_timeout. cbn. rewrite R. cbn.
+    destruct a.
+    + destruct (p_timeout s =? 0); [reflexivity|]. destruct (p_timeout s =? -1).
+      * apply (IH (mkP (p_now s + e) (p_real s) (p_timeout s) false (p_user s) (p_ok s && elapsed_ok (p_timeout s) e)) u); reflexivity.
+      * destruct (p_real s - (p_now s + e) <=? 0); [reflexivity|].
+        apply (IH (mkP (p_now s + e) (p_real s - (p_now s + e)) (p_real s - (p_now s + e)) false (p_user s) (p_ok s && elapsed_ok (p_timeout s) e)) u); reflexivity.
+    + reflexivity.
+    + reflexivity.
+Qed.
+
+Lemma io_poll_metrics_reduces T o probe :
+  (0 < T \/ T = -1) -> probe = PTimeout \/ probe = PIntr 0 ->
+  pobs (io_poll true T (probe :: o)) = pobs (io_poll false T o).
+Proof.
+  intros HT HP. unfold io_poll. cbn [io_poll_loop]. cbn.
+  assert (K : pobs (io_poll_loop o (mkP 0 T T false T true) [(0, 0)]) =
+              pobs (io_poll_loop o (mkP 0 T T false 0 true) [])).
+  { pose proof (io_poll_user_irrelevant o (mkP 0 T T false 0 true) T [(0, 0)] eq_refl) as U.
+    cbn in U. rewrite U. apply io_poll_log_irrelevant. }
+  destruct HP as [-> | ->]; cbn; unfold update_timeout, after_reset; cbn;
+    (destruct (Z.eqb_spec T 0); [lia|]); (destruct (Z.eqb_spec T (-1)); [subst; exact K|]);
+    (destruct (Z.leb_spec (T - 0) 0); [lia|]);
+    replace (T - 0) with T by lia; exact K.
+Qed.
